@@ -207,6 +207,8 @@ def gen_frame(rng, kind):
         y = None if rng.random() < nullp else (x if (x is not None and rng.random() < 0.15) else rng.choice(pool))
         rows.append({
             "row_id": i, "q": rng.choice([1, 2, 3, 5]), "x": x, "y": y,
+            # signed integers (never missing: they stay integer typed), the divisor never 0
+            "k": rng.choice([-11, -7, -6, -1, 0, 1, 6, 7, 11]), "j": rng.choice([-4, -3, -2, 2, 3, 4, 5]),
             "z": None if rng.random() < max(nullp, 0.3) else rng.choice(pool),
             "a": None if (kind == "allnull") else (rng.random() < 0.5), "b": None if (kind == "allnull") else (rng.random() < 0.5),
             "g": None if rng.random() < nullp else rng.choice(["a", "b", "z", "other", "ab c"]),
@@ -223,11 +225,11 @@ def gen_frame(rng, kind):
 def to_pandas(rows, with_dates):
     import pandas
 
-    cols = ["row_id", "q", "x", "y", "z", "a", "b", "g", "s2", "grp"]
+    cols = ["row_id", "q", "k", "j", "x", "y", "z", "a", "b", "g", "s2", "grp"]
     d = pandas.DataFrame({c: [r[c] for r in rows] for c in cols}, columns=cols)
     for c in ("x", "y", "z"):
         d[c] = d[c].astype("float64")
-    for c in ("row_id", "q"):
+    for c in ("row_id", "q", "k", "j"):
         d[c] = d[c].astype("int64")
     if len(rows) == 0 or all(r["a"] is not None for r in rows):
         d["a"] = d["a"].astype("bool")
@@ -260,7 +262,36 @@ EXTRA = [
      lambda x, y: (None if y is None else y - 1) if x is None else ((x + 1) if y is None else min(x + 1, y - 1))),
     ("-", "-(x - y)", ("x", "y"), nprop(lambda x, y: -(x - y))),
     ("/", "(x - y) / (z.abs() + 1)", ("x", "y", "z"), nprop(lambda x, y, z: (x - y) / (abs(z) + 1))),
+    # two-argument extrema over two columns that are equal in ~15% of the rows (ties between the arguments)
+    ("fmax", "x.fmax(y)", ("x", "y"), lambda x, y: (y if x is None else (x if y is None else max(x, y)))),
+    ("fmin", "x.fmin(y)", ("x", "y"), lambda x, y: (y if x is None else (x if y is None else min(x, y)))),
+    ("maximum", "x.maximum(y)", ("x", "y"), nprop(max)),
+    ("minimum", "x.minimum(y)", ("x", "y"), nprop(min)),
+    # modulo family with signed operands.  The source names NumPy as the reference ("mod ... remainder ... they do [agree]
+    # in numpy, which we will use as the reference implementation"): the result takes the sign of the divisor.
+    ("remainder", "k.remainder(j)", ("k", "j"), nprop(lambda k, j: k % j)),
+    ("mod", "k.mod(j)", ("k", "j"), nprop(lambda k, j: k % j)),
+    ("%", "k % j", ("k", "j"), nprop(lambda k, j: k % j)),
+    ("//", "k // j", ("k", "j"), nprop(lambda k, j: k // j)),
+    ("remainder", "x.remainder(y.abs() + 1.5)", ("x", "y"), nprop(lambda x, y: x - math.floor(x / (abs(y) + 1.5)) * (abs(y) + 1.5))),
+    ("mod", "x.mod(y.abs() + 1.5)", ("x", "y"), nprop(lambda x, y: x - math.floor(x / (abs(y) + 1.5)) * (abs(y) + 1.5))),
+    ("%", "x % (y.abs() + 1.5)", ("x", "y"), nprop(lambda x, y: x - math.floor(x / (abs(y) + 1.5)) * (abs(y) + 1.5))),
 ]
+# Backends judged for the signed / float modulo variants.  Integer `%`, `mod` and `//` are sent to the database as they
+# are ("use destination semantics" in sql_model.py; the accepted convention of C01): the SQL engines are not judged on
+# them.  `remainder` is implemented for the generic dialects by an explicit floor formula (judged on the PostgreSQL
+# text); the SQLite dialect maps it to its integer `%` operator: not judged for integers (same convention), judged for
+# floats, where `%` silently truncates both operands to integers (recorded finding).  MOD(double precision, ...) does
+# not exist in PostgreSQL and the surrogate cannot tell: float `%` / mod are not judged there.
+EXTRA_JUDGE_ON = {
+    "k.remainder(j)": {"pandas", "polars", "pg-surrogate"},
+    "k.mod(j)": {"pandas", "polars"},
+    "k % j": {"pandas", "polars"},
+    "k // j": {"pandas", "polars"},
+    "x.remainder(y.abs() + 1.5)": {"pandas", "polars", "pg-surrogate", "sqlite"},
+    "x.mod(y.abs() + 1.5)": {"pandas", "polars", "sqlite"},
+    "x % (y.abs() + 1.5)": {"pandas", "polars", "sqlite"},
+}
 for _op, _e, _a, _f in EXTRA:
     E_REFS[_e] = (_a, _f)
 
@@ -346,9 +377,17 @@ def values_by_key(got, key):
     return [(norm_cell(k), norm_cell(v)) for k, v in zip(kv, rv)]
 
 
-def classify(be, entry, bad):
-    if be == "sqlite" and entry["op"] in ("%", "mod", "remainder"):
-        return None
+def classify(be, entry, bad, argv=None):
+    if be == "sqlite" and entry["op"] in ("%", "mod", "remainder") and entry["expression"].startswith("x") and argv:
+        # float operands only, and only when the value SQLite returned is what the recorded mechanism produces: the
+        # C-style integer modulo of the operands truncated to integers (NULL when the truncated divisor is 0)
+        try:
+            xi, di = int(argv["x"]), int(abs(argv["y"]) + 1.5)
+            mech = None if di == 0 else float(math.fmod(xi, di))
+            if (mech is None and bad[1] is None) or (mech is not None and bad[1] is not None and float(bad[1]) == mech):
+                return F_FLOATMOD
+        except Exception:
+            return None
     return None
 
 
@@ -389,6 +428,9 @@ def judge(b, entry, rows, kind, sq, pg):
     cj = {"expression": expr, "op_class": entry["op_class"], "rows": rows, "frame_kind": kind}
     for be in ("pandas", "sqlite", "pg-surrogate", "polars"):
         if not claims[be]:
+            continue
+        if expr in EXTRA_JUDGE_ON and be not in EXTRA_JUDGE_ON[expr]:
+            b.count("not_judged_destination_convention", be + ":" + expr)
             continue
         if kind == "inf" and be in ("sqlite", "pg-surrogate"):
             continue
@@ -450,10 +492,32 @@ def judge(b, entry, rows, kind, sq, pg):
             argv = {a: rr[0][a] for a in args} if rr and args else {}
             b.violation("method-value-wrong",
                         f"{be}: {expr} ({entry['op_class']}): at key {bad[0]!r} (arguments {argv}) the result is {bad[1]!r}, documented "
-                        f"meaning gives {bad[2]!r}", case=dict(cj, backend=be), finding_key=classify(be, entry, bad))
+                        f"meaning gives {bad[2]!r}", case=dict(cj, backend=be), finding_key=classify(be, entry, bad, argv))
             continue
         ok.add(be)
     return ok
+
+
+def w_floatmod():
+    import pandas
+    from data_algebra.view_representations import TableDescription
+
+    sq = backends.Sqlite()
+    try:
+        d = pandas.DataFrame({"x": [2.5, -0.75, 7.25], "y": [2.0, 1.5, 2.5]})
+        ops = TableDescription(table_name="d", column_names=["x", "y"]).extend({"p": "x % y", "m": "x.mod(y)", "r": "x.remainder(y)"})
+        want = ops.eval({"d": d})
+        got = sq.run(ops, {"d": d})
+        bad = [c for c in ("p", "m", "r") if [round(float(v), 9) for v in got[c]] != [round(float(v), 9) for v in want[c]]]
+        if bad:
+            return ("SQLite dialect: %s of float columns x=[2.5, -0.75, 7.25], y=[2.0, 1.5, 2.5] gives %s, Pandas gives %s "
+                    "(SQLite's %% truncates both operands to integers)" % (bad, got[bad[0]].tolist(), want[bad[0]].tolist()))
+        return None
+    finally:
+        sq.close()
+
+
+WITNESSES = {F_FLOATMOD: w_floatmod}
 
 
 def run_batch(seed, batch, tier):
